@@ -45,9 +45,9 @@ def clock_configs(tier):
         out += [("lamport", dict(kind="lamport", n=3, L=7, variant=(0, 0, 0)), 2)]
         out += [("vector", dict(kind="vector", n=2, L=7, variant=v), 1) for v in ("full", "self")]
         out += [("vector", dict(kind="vector", n=3, L=6, variant=v), 2) for v in ("full", "self")]
-        # HLC, 2 nodes: all 16 ordered pairs of clock models; 7 steps for 5 of them, 6 steps for the rest;
+        # HLC, 2 nodes: all 16 ordered pairs of clock models; 7 steps for 3 of them, 6 steps for the rest;
         # the receive-timestamp modes alternate
-        deep = [("id", "+skew"), ("-skew", "id"), ("fast", "-skew"), ("+skew", "fast"), ("id", "id")]
+        deep = [("id", "+skew"), ("-skew", "id"), ("fast", "-skew")]
         k = 0
         for a in M4:
             for b in M4:
